@@ -39,12 +39,19 @@ pub fn rand_addr(rng: &mut StdRng) -> SocketAddr {
 }
 
 pub fn rand_cred(rng: &mut StdRng) -> CredDesc {
-    let n = |rng: &mut StdRng| *[0usize, 1, 5, 20].choose(rng).unwrap();
+    let n = |rng: &mut StdRng| *[0usize, 1, 2, 5, 20, 63, 64, 65, 100].choose(rng).unwrap();
     if rng.gen_bool(0.5) {
         CredDesc { long: false, user: String::new(), realm: String::new(), password: { let k = n(rng); rand_utf8(rng, k) } }
     } else {
         let (a, b, c) = (n(rng), n(rng), n(rng));
-        CredDesc { long: true, user: rand_utf8(rng, a), realm: rand_utf8(rng, b), password: rand_utf8(rng, c) }
+        let mut realm = rand_utf8(rng, b);
+        match rng.gen_range(0..6) {
+            0 => realm = format!(" {realm}"),
+            1 => realm = format!("{realm} "),
+            2 => realm = format!("\"{realm}\""),
+            _ => (),
+        }
+        CredDesc { long: true, user: rand_utf8(rng, a), realm, password: rand_utf8(rng, c) }
     }
 }
 
@@ -76,7 +83,10 @@ pub fn rand_attr(rng: &mut StdRng, k: usize, tid: TransactionId) -> (Box<dyn Att
         4 => { let n = len_pick(rng, 300); let s = rand_utf8(rng, n); (Box::new(AlternateDomain::new(&s)), json!({"t": 32771, "text": s.as_bytes()})) }
         5 => { let code = *[300u16, 399, 400, 401, 420, 438, 500, 699, rng.gen_range(300..700)].choose(rng).unwrap(); let n = len_pick(rng, 763); let s = rand_utf8(rng, n);
                (Box::new(ErrorCode::new(code, &s).unwrap()), json!({"t": 9, "code": code, "text": s.as_bytes()})) }
-        6 => { let n = rng.gen_range(0..6); let l: Vec<u16> = (0..n).map(|_| rng.gen()).collect();
+        6 => { let n = rng.gen_range(0..6);
+               // repeated and unsorted entries on purpose
+               let pool = [0x0006u16, 0x0024, 0x802a, 0x0006, 0x7f00, 0xffff];
+               let l: Vec<u16> = (0..n).map(|_| if rng.gen_bool(0.6) { *pool.choose(rng).unwrap() } else { rng.gen() }).collect();
                let lt: Vec<AttributeType> = l.iter().map(|x| AttributeType::new(*x)).collect();
                (Box::new(UnknownAttributes::new(&lt)), json!({"t": 10, "list": l})) }
         7 => { let a = rand_addr(rng); (Box::new(XorMappedAddress::new(a, tid)), json!({"t": 32, "addr": crate::codec::addr_json(a)})) }
